@@ -52,6 +52,12 @@ HISTORY = {
     "C08-r4H3-2": "round 4. first run: missed by C08 and C11; the operator table gained the form 'out': every function that accepts out= is called through both spellings with a fresh buffer (plain array for comparisons / constant operands, a polynomial otherwise), result and buffer compared. The unchanged library already disagrees for most of them (KF-C08-out-*), remainder is one of the consistent ones",
     "C04-r4H4-1": "round 4. first run: missed by C04 and C01; operands now also store their names in a rotated / shuffled order (q1,q2,q0), in C04 and in C01's leaves",
     "C12-r4H8-2": "round 4. first run: missed by C12 and C01; new cast-oracle entry power_exact: (c*q0)**1,2,3 with coefficients at the limits of every integer type (beyond 2**53 for 64 bit) and non-dyadic float16/32 values, compared exactly (integers as Python ints, no longer through complex128)",
+    "C17-r5I4-2": "round 5. first run: missed; C17's direct pass gained the workload numeric_args (integer / float ndarrays with negative entries passed as axes, shapes, repeats, indices, evaluation points and bounds, snapshot before and after, also on the raising path), and the catalogue now spells integer-sequence arguments as ndarrays too",
+    "C18-r5I1-1": "round 5. first run: missed; glexsort keys now also come in every integer dtype with values close to the limits of the type (the grade is the exact column sum)",
+    "C12-r5I8-2": "round 5. first run: missed; astype is now also called with copy=False / copy=True / order= / casting=",
+    "C11-r5I7-1": "round 5. first run: missed; around / round now also get integer coefficients with decimals -1 / -2",
+    "C08-r5I7-2": "round 5. first run: missed by C08 and C11 (a newly registered ufunc counted as 'registered without generator'); the negative shard now audits the two registries: every registered numpy callable must be served by the implementation of that very function (or a numpy alias / the documented polynomial-division design)",
+    "C12-r5I5-1": "round 5. a join (hstack) takes the first operand's dtype where neither operand can hold the other: not arithmetic, so outside C12's clauses; caught by C09 (names and coefficient dtype of joins)",
     "C06-2": "first run: caught by C06, missed by C15; C15's derivative entry now differentiates with respect to several variables",
 }
 REJECTED = [
